@@ -246,7 +246,7 @@ def ground_stage():
         g = S.G8()          # (A B) -> X is not a root; X has a unary rule into the root set, which may not apply at the root of a 2-word sentence
         # labels from the real grammars' vocabularies (the printers key tables on them)
         LAB = dict(en=dict(binary='fa|>', unary='tr|<un>'), ja=dict(binary='ba|<', unary='ADNext|ADNext'))
-        cfg = dict(unary_penalty=0.1, beta=0.5, use_beta=False, pruning_size=2, nbest=1, max_step=100000)
+        cfg = dict(unary_penalty=0.1, beta=0.5, use_beta=False, pruning_size=1, nbest=1, max_step=100000)      # one admitted tag per word: 'A B' has the spanning analysis X only
         ok1 = dict(tag=[[0, -9]], dep=[[0, -1]])                                   # one word A: unary v into the root set
         ok2 = dict(tag=[[0, -9], [0, -9]], dep=[[0, -1, -1], [-1, 0, -1]])          # A A -> 4 (root)
         span_no_root = dict(tag=[[0, -9], [-9, 0]], dep=[[0, -1, -1], [-1, 0, -1]])  # A B -> X only: spanning analysis, no root
